@@ -800,6 +800,7 @@ impl Scenario for MigScenario {
                 let est_t = ((w.tip as i64 + w.skew as i64).clamp(1, u32::MAX as i64 - 1) as u32).saturating_add(1);
                 let targets = DuenessTargets::new(BlockHeight::from_u32(scanned_t), BlockHeight::from_u32(est_t));
                 let before = state_digest(&state);
+                let before_anchors: Vec<Option<u32>> = state.transactions().iter().map(|t| t.anchor_boundary().map(u32::from)).collect();
                 let before_status = state.status();
                 let r = catch(|| advance_migration(&mut store, &mut state, targets, &config, &mut rng));
                 let r = match r {
@@ -837,6 +838,14 @@ impl Scenario for MigScenario {
                         for ((id, b, _, _), t) in before.iter().zip(state.transactions()) {
                             if rank(&t.state()) < rank(b) {
                                 return self.v(ctx, false, Violation::new("lifecycle_moves_forward", format!("{id:?}: {b:?} -> {:?} inside advance_migration", t.state())));
+                            }
+                        }
+                        // a transfer that had a proving anchor keeps one: re-scheduling may re-draw the boundary, and keeps the
+                        // prior one when no fresh boundary can be drawn
+                        ctx.oracle("anchor_never_lost");
+                        for (b, t) in before_anchors.iter().zip(state.transactions()) {
+                            if b.is_some() && t.anchor_boundary().is_none() && !matches!(t.state(), MigrationTxState::Mined { .. }) {
+                                return self.v(ctx, true, Violation::new("anchor_never_lost", format!("advance_migration left {:?} without an anchor boundary (it had {:?}): {}", t.id(), b, summarize_tx(t))));
                             }
                         }
                         if before_status.is_terminal() && state.status() != before_status {
@@ -1421,9 +1430,11 @@ impl Scenario for MigScenario {
         Ok(())
     }
     fn runs(&self, tier: Tier) -> u64 {
-        match tier {
-            Tier::Quick => 30_000,
-            Tier::Thorough => 600_000,
+        match (tier, self.prop) {
+            (Tier::Quick, "C17") => 300_000,
+            (Tier::Quick, _) => 30_000,
+            (Tier::Thorough, "C17") => 5_000_000,
+            (Tier::Thorough, _) => 600_000,
         }
     }
     fn budget_s(&self, tier: Tier) -> u64 {
